@@ -70,6 +70,7 @@ func runC19(c *report.Ctx) {
 	// ---- (3) pointer with error / from map -------------------------------------------------------
 	rulePtrWithErr(c)
 	ruleNilOnSuccess(c)
+	ruleIndexedResultLengthChecked(c, []string{pkgAPI, pkgWallet, pkgTxmgr, pkgKeystore, pkgUtils}, 3)
 	ruleBalanceMapCoversReadyWallets(c)
 	ruleBalanceLookupPresence(c)
 	ruleUnmarshalLeavesKeyUsable(c)
@@ -183,7 +184,7 @@ func runC19(c *report.Ctx) {
 				})
 			}
 			ok2 := true
-			if ph, isPhi := x.(*ssa.Phi); isPhi {
+			if ph, isPhi := x.(*ssa.Phi); isPhi && !bounded(x, p.GuardsOf(in)) { // (bounded after the merge: fine as it is)
 				for i, e := range ph.Edges {
 					pred := ph.Block().Preds[i]
 					gs := p.Guards(pred)
